@@ -10,7 +10,7 @@ The comparison / min-max functions of fcppt::math::box touch their scalars only 
  OUT   the outer structure: conjunction over all coordinates (all_of) / box built from the
        per-coordinate (min,max) pairs (init_max) / null box when not intersecting
  CMP   ==, <, != of boxes read the same component set (pos, size)
-shrink, stretch_absolute and corner_points are decided in c13_arith.py (polynomial identities). Declined: center, distance, stretch_relative (division).
+shrink, stretch_absolute, center and corner_points are decided in c13_arith.py (polynomial identities; truncated division as an opaque atom). Declined: distance, stretch_relative.
 """
 import re
 
